@@ -212,6 +212,20 @@ func (h *Handle) Exit(fallible bool) error {
 	return nil
 }
 
+// ExitCtx is Exit for a provider that takes a context: like real context-aware code it gives up with ctx.Err() when its
+// context is already cancelled at the time it would return.
+func (h *Handle) ExitCtx(ctx context.Context, fallible bool) error {
+	err := h.Exit(fallible)
+	if err == nil && fallible && ctx != nil && ctx.Err() != nil && h.r != nil {
+		h.r.mu.Lock()
+		// the exit event was already logged; record that the provider reported the cancellation instead
+		h.r.events = append(h.r.events, Event{Seq: len(h.r.events), Kind: "ctxfail", Fn: h.fn})
+		h.r.mu.Unlock()
+		return ctx.Err()
+	}
+	return err
+}
+
 func (h *Handle) Term(gi int) string {
 	return fmt.Sprintf("%s(%s)#%d", h.fn, strings.Join(h.args, ","), gi)
 }
@@ -262,29 +276,50 @@ type Result struct {
 	Events   []Event `json:"events"`
 	Leaked   int     `json:"leaked"`
 	LeakInfo string  `json:"leak_info,omitempty"`
+	LeakWait []string `json:"leak_wait,omitempty"`
 	Panic    string  `json:"panic,omitempty"`
 	Ms       float64 `json:"ms"`
 }
 
 // goroutines (other than the caller's) whose stack mentions the generated injector function
-func leaked(inj string) (int, string) {
+// goroutines whose stack mentions the generated injector function: id -> "goroutine:<wait state>" | "caller:<wait state>"
+func leakedGoroutines(inj string) (map[string]string, map[string]string) {
 	buf := make([]byte, 1<<20)
 	n := runtime.Stack(buf, true)
-	cnt := 0
-	info := ""
+	states := map[string]string{}
+	infos := map[string]string{}
 	for _, g := range strings.Split(string(buf[:n]), "\n\n") {
-		if strings.Contains(g, "main."+inj+".func") || strings.Contains(g, "main."+inj+"(") {
-			cnt++
-			if info == "" {
-				lines := strings.Split(g, "\n")
-				if len(lines) > 6 {
-					lines = lines[:6]
-				}
-				info = strings.Join(lines, " | ")
+		if !strings.Contains(g, "main."+inj+".func") && !strings.Contains(g, "main."+inj+"(") {
+			continue
+		}
+		id := ""
+		if strings.HasPrefix(g, "goroutine ") {
+			rest := g[len("goroutine "):]
+			if sp := strings.Index(rest, " "); sp > 0 {
+				id = rest[:sp]
 			}
 		}
+		st := "?"
+		if a := strings.Index(g, "["); a >= 0 {
+			if b := strings.Index(g[a:], "]"); b > 0 {
+				st = g[a+1 : a+b]
+				if c := strings.Index(st, ","); c > 0 {
+					st = st[:c]
+				}
+			}
+		}
+		where := "goroutine"
+		if strings.Contains(g, "main."+inj+"(") {
+			where = "caller"
+		}
+		states[id] = where + ":" + st
+		lines := strings.Split(g, "\n")
+		if len(lines) > 6 {
+			lines = lines[:6]
+		}
+		infos[id] = strings.Join(lines, " | ")
 	}
-	return cnt, info
+	return states, infos
 }
 
 // Execute runs one scenario: call invokes the injector with the (cancellable) context.
@@ -296,7 +331,7 @@ func Execute(sc *Scenario, call func(ctx context.Context) (any, error), hasResul
 	defer cancel()
 	r := NewRun(sc, cancel)
 	res := Result{ID: sc.ID, Inj: sc.Inj, Kind: sc.Kind}
-	baseline, _ := leaked(sc.Inj) // goroutines left over by earlier scenarios of the same injector
+	baseline, _ := leakedGoroutines(sc.Inj) // goroutines left over by earlier scenarios of the same injector
 	if sc.CancelOn != nil && sc.CancelOn.Kind == "before" {
 		r.mu.Lock()
 		r.events = append(r.events, Event{Seq: 0, Kind: "cancel"})
@@ -335,15 +370,25 @@ func Execute(sc *Scenario, call func(ctx context.Context) (any, error), hasResul
 	// grace period, then look for goroutines still inside the generated function
 	for _, wait := range []int{20, 80, 250} {
 		time.Sleep(time.Duration(wait) * time.Millisecond)
-		res.Leaked, res.LeakInfo = leaked(sc.Inj)
-		res.Leaked -= baseline
+		now, infos := leakedGoroutines(sc.Inj)
+		res.Leaked, res.LeakInfo, res.LeakWait = 0, "", nil
+		for id, st := range now {
+			if _, old := baseline[id]; old {
+				continue
+			}
+			if !res.Returned && strings.HasPrefix(st, "caller:") {
+				continue // the hung caller itself
+			}
+			res.Leaked++
+			res.LeakWait = append(res.LeakWait, st)
+			if res.LeakInfo == "" {
+				res.LeakInfo = infos[id]
+			}
+		}
 		if res.Leaked <= 0 {
 			res.Leaked = 0
 			break
 		}
-	}
-	if !res.Returned && res.Leaked > 0 {
-		res.Leaked-- // the hung caller itself
 	}
 	res.Events = r.Events()
 	return res
